@@ -16,12 +16,14 @@ Case shapes (JSON)
    "cur":null|{"matched","matchdict","get","route_name"},"path":asset spec}
   Q = null | {"t":"null"} | {"t":"str","v":s} | {"t":"pairs","form":"dict|list|tuples|multidict|itemsobj","seq":"list|tuple|gen","v":[[k,V]]}
   V = null | str | int | [leaf…]   leaf = str | int | [..] (a nested sequence is rendered by str())
-  leaf values (elements, route values, query keys/values): str | int | true/false | {"f":"1.0"} (float) | {"b":text} (bytes, UTF-8)
+  leaf values (elements, route values, query keys/values/sequence members, anchor): str | int | true/false | null (None) |
+     {"f":text} float(text) | {"d":text} Decimal(text) | {"b":text} bytes (UTF-8) | {"bx":hex} raw bytes | {"o":text} object with __str__
   {"op":"history","calls":[url case…]}   the calls in this order after one cache reset, and each on its own
   {"op":"quote"|"quote_plus","s":text,"safe":ascii}   {"op":"urlencode","pairs":[[k,V]]}
   {"op":"urlsplit"|"parse_qsl"|"unquote"|"unquote_plus","s":text}
 """
 import itertools, json, re, sys
+from decimal import Decimal
 from urllib.parse import urlsplit, parse_qsl, unquote, urlencode as std_urlencode
 
 import vfutil
@@ -123,23 +125,48 @@ def make_request(case, registry):
     return req
 
 
+class StrObj:
+    """a custom object whose text is whatever `__str__` says (reserved characters included)"""
+
+    def __init__(self, text):
+        self._t = text
+
+    def __str__(self):
+        return self._t
+
+    __repr__ = __str__
+
+
 def py_val(x):
-    """JSON leaf -> the Python object handed to the helper: {"b": text} is `bytes` (UTF-8), {"f": "1.0"} a float
-    (floats travel as text), true/false are bools, everything else itself"""
+    """JSON leaf -> the Python object handed to the helper: str, int (any size), true/false, null (None),
+    {"f": text} float(text) (so 1e+20, -0.0, inf, nan travel as text), {"d": text} Decimal(text), {"b": text} bytes
+    (UTF-8 of the text), {"bx": hex} raw bytes (may be non-UTF-8), {"o": text} an object whose __str__ returns text"""
     if isinstance(x, dict):
         if 'b' in x:
             return x['b'].encode('utf-8')
+        if 'bx' in x:
+            return bytes.fromhex(x['bx'])
+        if 'd' in x:
+            return Decimal(x['d'])
+        if 'o' in x:
+            return StrObj(x['o'])
         return float(x['f'])
     return x
 
 
 def txt_val(x):
-    """the text the property speaks about for that leaf: `str(x)`, and the decoded text of a `bytes`"""
-    if isinstance(x, dict):
-        if 'b' in x:
-            return x['b']
-        return str(float(x['f']))
-    return str(x)
+    """the text the property speaks about for that leaf — Python's own `str(v)` of the object (for `bytes`: its
+    UTF-8 decoding), computed here and handed to the model as data"""
+    if isinstance(x, dict) and 'b' in x:
+        return x['b']
+    if isinstance(x, dict) and 'bx' in x:
+        return bytes.fromhex(x['bx']).decode('utf-8')        # raises for non-UTF-8: such leaves are outside the model
+    return str(py_val(x))
+
+
+def anchor_text(x):
+    """`if anchor:` is Python truthiness (0, 0.0, False, '', b'', Decimal(0), None: no fragment)"""
+    return txt_val(x) if (x is not None and py_val(x)) else ''
 
 
 def py_deep(x, kind='list'):
@@ -245,9 +272,11 @@ def call_helper(case, helper=None, drop=()):
     o = case.get('ovr') or {}
     under = '' if helper.startswith('resource') else '_'
     kw = {}
-    for k in ('app_url', 'scheme', 'host', 'port', 'anchor'):
+    for k in ('app_url', 'scheme', 'host', 'port'):
         if o.get(k) is not None and k not in drop:
             kw[under + k] = o[k]
+    if o.get('anchor') is not None:
+        kw[under + 'anchor'] = py_val(o['anchor'])
     has_q, qobj = build_query(o.get('query'))
     if has_q:
         kw[under + 'query'] = qobj
@@ -367,8 +396,10 @@ def to_model(case):
     regs, sroutes = static_regs(case)
     o = dict(case.get('ovr') or {})
     mo = {}
-    for k in ('app_url', 'scheme', 'host', 'anchor'):
+    for k in ('app_url', 'scheme', 'host'):
         mo[k] = o.get(k)
+    mo['anchor'] = anchor_text(o.get('anchor'))
+    mo['anchor_truthy'] = bool(o.get('anchor') is not None and py_val(o['anchor']))
     mo['port'] = None if o.get('port') is None else str(o['port'])
     q = o.get('query')
     if q is None:
@@ -590,7 +621,7 @@ def oracle(case):
             want_pairs = [list(p) for p in expand(query_items(q))]
             if d.get('query') != want_pairs:
                 problems.append('query: decoded %r, supplied %r' % (d.get('query'), want_pairs))
-        a = o.get('anchor') or ''
+        a = anchor_text(o.get('anchor'))
         if d.get('anchor') != a:
             problems.append('anchor: decoded %r, supplied %r' % (d.get('anchor'), a))
     # 3. overrides / application URL
@@ -815,6 +846,30 @@ def gen_env(rng):
     return env
 
 
+# awkward non-str leaves: every one of them in every slot in the leaf cube; drawn at random elsewhere
+LEAF_POOL = [0, -7, 10 ** 30, True, False, None,
+             {'f': '1e16'}, {'f': '2.5e+16'}, {'f': '-3e300'}, {'f': '1e-07'}, {'f': '5e-324'}, {'f': '-0.0'}, {'f': 'inf'},
+             {'f': '-inf'}, {'f': 'nan'}, {'f': '0.1'}, {'f': '123456789012345680.0'},
+             {'d': '1E+3'}, {'d': '0.10'}, {'d': '-1E-7'}, {'d': 'NaN'}, {'d': '0'},
+             {'b': 'a b'}, {'b': 'é/?#'}, {'b': ''},
+             {'o': 'a/b'}, {'o': 'x?y#z'}, {'o': 'p&q=r+s'}, {'o': '%41'}, {'o': ' '}, {'o': 'é😀'}, {'o': ''},
+             '', '+', 'a+b c', '1e+20']
+SLOTS = ('element', 'kw', 'qkey', 'qval', 'qseq', 'anchor')
+
+
+def gen_leaf(rng, none_ok=True):
+    x = rng.choice(LEAF_POOL)
+    if rng.random() < 0.25:
+        sign = rng.choice(['', '-'])
+        x = rng.choice([{'f': '%s%de%s%d' % (sign, rng.randint(1, 9), rng.choice(['+', '-']), rng.randint(5, 300))},
+                        {'f': '%s%d.%de+%d' % (sign, rng.randint(1, 9), rng.randint(0, 99), rng.randint(16, 30))},
+                        rng.choice([-1, 1]) * rng.randrange(10 ** 20), {'d': '%d.%dE%s%d' % (rng.randint(1, 9), rng.randint(0, 9), rng.choice(['+', '-']), rng.randint(1, 40))},
+                        {'o': gen_text(rng, 4)}, {'b': gen_text(rng, 4, p_control=0.0)}])
+    if x is None and not none_ok:
+        return 0
+    return x
+
+
 def gen_qval(rng, depth=0):
     r = rng.random()
     if r < 0.12:
@@ -822,7 +877,8 @@ def gen_qval(rng, depth=0):
     if r < 0.62:
         return gen_text(rng)
     if r < 0.7:
-        return rng.choice([0, 1, 42, -7, 10 ** 12, True, False, {'f': '1.0'}, {'f': '-0.5'}])
+        x = gen_leaf(rng, none_ok=False) if rng.random() < 0.7 else rng.choice([0, 1, 42, -7, 10 ** 12, True, False, {'f': '1.0'}, {'f': '-0.5'}])
+        return gen_text(rng) if (isinstance(x, dict) and 'b' in x) else x      # a bytes *value* is a sequence of ints
     n = rng.choice([0, 1, 2, 2, 3])
     out = []
     for _ in range(n):
@@ -830,7 +886,7 @@ def gen_qval(rng, depth=0):
         if rr < 0.75:
             out.append(gen_text(rng))
         elif rr < 0.85:
-            out.append(rng.choice([0, 5, -1]))
+            out.append(gen_leaf(rng))
         else:
             out.append([gen_text(rng, 3) for _ in range(rng.choice([0, 1, 2]))])     # nested sequence
     return out
@@ -850,8 +906,8 @@ def gen_query(rng):
     pairs = []
     for _ in range(n):
         k = rng.choice(keys) if rng.random() < 0.7 else gen_text(rng, 4)
-        if form in ('list', 'tuples', 'itemsobj') and rng.random() < 0.05:
-            k = rng.choice([{'b': 'a'}, {'b': 'k k'}, 1, True])
+        if rng.random() < 0.08:
+            k = gen_leaf(rng)
         v = gen_qval(rng)
         if form == 'multidict' and (v is None or isinstance(v, list)) and rng.random() < 0.5:
             v = gen_text(rng)
@@ -884,12 +940,14 @@ def gen_ovr(rng, path_helper=False):
         o['anchor'] = gen_text(rng, 5)
     elif r < 0.5:
         o['anchor'] = ''
+    elif r < 0.56:
+        o['anchor'] = gen_leaf(rng, none_ok=False)
     return o
 
 
 def gen_elements(rng):
     n = rng.choice([0, 0, 1, 1, 2, 3])
-    return [gen_text(rng, 5) if rng.random() < 0.9 else rng.choice([0, 17, True, False, 1, {'f': '1.0'}, {'f': '2.5'}, {'b': 'a'}, {'b': 'é b'}]) for _ in range(n)]
+    return [gen_text(rng, 5) if rng.random() < 0.88 else gen_leaf(rng) for _ in range(n)]
 
 
 def gen_kw_for(rng, pieces, p_missing=0.04):
@@ -898,7 +956,7 @@ def gen_kw_for(rng, pieces, p_missing=0.04):
         if p[0] == 'p':
             if rng.random() < p_missing:
                 continue
-            kw.append([p[1], gen_text(rng, 4) if rng.random() < 0.88 else rng.choice([7, 2024, True, 1, {'f': '1.0'}, {'b': 'a/b'}])])
+            kw.append([p[1], gen_text(rng, 4) if rng.random() < 0.86 else gen_leaf(rng)])
         elif p[0] == 's':
             if rng.random() < p_missing:
                 continue
@@ -1054,8 +1112,8 @@ def nontrivial(case):
     if case.get('op') == 'history':
         return len(case['calls']) >= 2
     texts = [txt_val(x) for x in case.get('elements', [])] + [case['env']['script_name'].replace('/', '')]
-    if o.get('anchor'):
-        texts.append(o['anchor'])
+    if o.get('anchor') is not None:
+        texts.append(anchor_text(o['anchor']))
     q = o.get('query')
     if q and q['t'] == 'str':
         texts.append(q['v'])
@@ -1182,6 +1240,8 @@ def set_slot(case, slot, val):
         c['ovr']['query']['v'][i][1] = [val, 'z']
     elif kind == 'qkey':
         c['ovr']['query']['v'][i][0] = val
+    elif kind == 'anchor':
+        c['ovr']['anchor'] = val
     return c
 
 
@@ -1356,6 +1416,10 @@ def run(ctx):
     # override cube (exhaustive within its scope): small in the quick tier, full in the thorough tier
     cube = list(override_cube(small=(ctx.tier == 'quick')))
     run_cases(ctx, cube, dist, res, 'override-cube')
+    # leaf cube (exhaustive within its scope): every awkward non-str leaf in every slot of every helper
+    leaves = list(leaf_cube())
+    run_cases(ctx, leaves, dist, res, 'leaf-cube')
+    dist['non_utf8_bytes'] = probe_non_utf8()
     # history independence: twin histories (equal-but-differently-printed values in one slot), then every helper
     # call of this run once more in a shuffled order
     hists = [gen_history(rng) for _ in range(ctx.n(300, 2000))]
@@ -1367,21 +1431,69 @@ def run(ctx):
     excl_note = 'excluded point (Host "[::1" without its "]", _scheme=https; outside the domain): impl %r, urlsplit %s' % (
         excl_out, std_decode(excl_out.get('url', ''), 0)['split'])
     res['violations'] = shrink_violations(res['violations'])
-    total = len(corpus) + done + len(raws) + len(cube) + len(hists)
+    total = len(corpus) + done + len(raws) + len(cube) + len(leaves) + len(hists)
     return {'evaluations': total, 'distinct_nontrivial': res['_nontriv'], 'rule': RULE, 'agreeing': res['agreeing'],
             'samples': samples + raws[:2] + hists[:1], 'mismatches': res['mismatches'][:20], 'violations': res['violations'],
             'distribution': dist, 'exhaustive': False,
-            'notes': [excl_note, 'corpus %d, helper cases %d, encoder/parser cases %d, override cube %d, twin histories %d, second-pass calls %d' % (len(corpus), done, len(raws), len(cube), len(hists), dist['second_pass_calls']),
+            'notes': [excl_note, 'leaf cube %d cases (%d leaves x 6 slots x 8 helpers where the slot exists); a non-UTF-8 bytes leaf (outside the domain): %s' % (len(leaves), len(LEAF_POOL), dist['non_utf8_bytes']), 'corpus %d, helper cases %d, encoder/parser cases %d, override cube %d, twin histories %d, second-pass calls %d' % (len(corpus), done, len(raws), len(cube), len(hists), dist['second_pass_calls']),
                       'history clause: every history is run in sequence after one cache reset and call by call after a reset each; a shuffled sample of the helper calls of the run is repeated (quick: all; thorough: 12 000); results must be equal',
                       'each helper case runs the helper, its *_path/*_url sibling and (with _app_url) the call without _scheme/_host/_port on the real code'],
             'assumptions': [
                 'Host / _host / _scheme / _port / _app_url values are the caller\'s and are generated well-formed (the helpers copy them verbatim)',
                 'SCRIPT_NAME is empty or starts with "/" (PEP 3333); non-root resources have non-empty names; route patterns start with "/"',
-                'values reach the helpers as str, bytes (UTF-8), bool, int, float (non-str go through Python\'s own str(); a bytes *query value* is a sequence of ints for is_nonstr_iter and is not generated)',
+                'leaf values reach the helpers as str, bytes (UTF-8), None, bool, int, float (incl. exponent forms, -0.0, inf, nan), Decimal, objects with __str__; the text the property speaks about is Python\'s own str(v), computed by the harness and handed to the model as data; `if anchor:` truthiness is Python\'s; a bytes *query value* is a sequence of ints for is_nonstr_iter and a non-UTF-8 bytes leaf is not text: both outside the domain (the latter is probed and reported)',
                 'external static base + subpath goes through urllib.parse.urljoin: only subpaths without "", ".", ".." segments are modelled (others counted as outside_model)'],
             'trusted_base': ['urllib.parse (urlsplit, parse_qsl, unquote, quote_from_bytes) and WebOb (host_url, application_url, script_name decoding, GET parsing) are modelled and tied by this correspondence run only',
-                             'Python str(), dict / MultiDict item order',
+                             'Python str(v) of every non-str leaf (int, bool, float, Decimal, None, custom __str__) and truthiness of the anchor are computed by the harness with the same interpreter and given to the model as text; dict / MultiDict item order',
                              'extract/c17.py (safe-set call sites) — its output is what the model quotes with; a wrong table shows as a correspondence mismatch']}
+
+
+def leaf_cube():
+    """small-scope exhaustive: every awkward leaf of LEAF_POOL in every slot (element, route value, query key, query
+    value, member of a query sequence, anchor) of every helper that has the slot; query as pair list and as mapping"""
+    env = {'scheme': 'http', 'host': 'example.com', 'server_name': 'localhost', 'server_port': '80', 'script_name': ''}
+    routes = [{'name': 'r', 'pieces': [['l', '/p/'], ['p', 'x']]}]
+    for helper in HELPERS:
+        base = {'op': 'url', 'helper': helper, 'env': env, 'routes': routes, 'statics': [], 'elements': ['e'], 'kw': [['x', 'v']],
+                'ovr': {'query': {'t': 'pairs', 'form': 'list', 'seq': 'list', 'v': [['k', 'v'], ['l', 'w']]}, 'anchor': 'a'}}
+        if helper.startswith('route'):
+            base['route'] = 'r'
+        elif helper.startswith('current'):
+            base['cur'] = {'matched': 'r', 'matchdict': [['x', 'm']], 'get': [], 'route_name': None}
+        elif helper.startswith('resource'):
+            base.update(resource=['n'], kw=[])
+        else:
+            base.update(statics=STATIC_SETS[0], path='c17pkg:static/a.css', elements=[], kw=[])
+        for slot in SLOTS:
+            if slot == 'element' and helper.startswith('static'):
+                continue
+            if slot == 'kw' and not (helper.startswith('route') or helper.startswith('current')):
+                continue
+            for i, leaf in enumerate(LEAF_POOL):
+                if leaf is None and slot in ('qval', 'anchor'):
+                    continue                # None there means "k=" / no anchor: covered by the other streams
+                if isinstance(leaf, dict) and 'b' in leaf and slot in ('qval',):
+                    continue                # a bytes *value* is a sequence of ints for is_nonstr_iter (outside the domain)
+                c = set_slot(base, (slot, 0), leaf)
+                if slot.startswith('q') and i % 2:
+                    c['ovr']['query']['form'] = 'dict'
+                yield c
+
+
+NON_UTF8 = {'bx': 'ff41'}
+
+
+def probe_non_utf8():
+    """what the code does with a `bytes` leaf that is not UTF-8 (outside the domain: the property speaks of text)"""
+    env = {'scheme': 'http', 'host': 'example.com', 'server_name': 'localhost', 'server_port': '80', 'script_name': ''}
+    base = {'op': 'url', 'helper': 'route_url', 'env': env, 'routes': [{'name': 'r', 'pieces': [['l', '/p/'], ['p', 'x']]}], 'statics': [],
+            'route': 'r', 'elements': ['e'], 'kw': [['x', 'v']],
+            'ovr': {'query': {'t': 'pairs', 'form': 'list', 'seq': 'list', 'v': [['k', 'v'], ['l', 'w']]}, 'anchor': 'a'}}
+    out = {}
+    for slot in ('element', 'kw', 'qkey', 'qseq', 'anchor'):
+        r = call_helper(set_slot(base, (slot, 0), NON_UTF8))
+        out[slot] = r.get('err') or r['url']
+    return out
 
 
 def override_cube(small=False):
@@ -1480,6 +1592,9 @@ def search(ctx):
             if consider({'op': op, 's': t, 'safe': safe}):
                 return finish(False)
         if consider({'op': 'urlencode', 'pairs': [[t, t], [t, None], [t, [t, ch]], [ch, []]]}):
+            return finish(False)
+    for case in leaf_cube():
+        if consider(case):
             return finish(False)
     # twin histories: every group of equal-but-differently-printed values, both orders, in every slot kind
     tw_env = dict(base_env)
